@@ -117,6 +117,11 @@ def oracle(case, impl):
         return [("crash", "negotiation scenario crashed: %s -> %s" % (case["line"], impl[:150]))]
     out = []
     transparent = t["case"] == "keep" and t["bits"] == "keep" and t["types"] == "all" and t["limit"] == 0
+    w = case["line"].split()
+    if len(w) > 6 and (int(w[6]) > 0 or (len(w) > 7 and int(w[7]) > 0)):
+        # a tunnel domain of a chosen length (one so long that little or nothing fits before it makes the negotiation fail - and say so) or a
+        # path that loses option requests: not the transparent path, whatever the other settings
+        transparent = False
     if p[:2] == ["hs", "nonterm"]:
         out.append(("handshake-does-not-terminate;limit=%s" % (t["limit"] or "none"), "the handshake was still probing after %s exchanges on path %s" % (p[3], case["line"])))
         return out
